@@ -173,14 +173,38 @@ func runC26(c *Ctx) {
 			param = fd.Type.Params.List[n-1].Names[0].Name
 		}
 		lenOK, bodyOK, order := false, false, []string{}
+		sawOtherNumber := false
 		ast.Inspect(fd.Body, func(n ast.Node) bool {
 			call, ok := n.(*ast.CallExpr)
 			if !ok {
 				return true
 			}
 			fn := types.ExprString(call.Fun)
-			if fn == "fmt.Sprintf" && len(call.Args) == 2 {
-				lenOK = strings.ReplaceAll(types.ExprString(call.Args[1]), " ", "") == "len("+param+")"
+			// the number rendered into the header: whichever decimal formatter is used (fmt with %d, strconv.Itoa /
+			// FormatInt / AppendInt …), the value formatted is len(<body>) — conversions do not matter
+			switch fn {
+			case "fmt.Sprintf", "fmt.Fprintf", "fmt.Appendf", "strconv.Itoa", "strconv.FormatInt", "strconv.FormatUint", "strconv.AppendInt", "strconv.AppendUint":
+				for _, a := range call.Args {
+					t := pk.TypesInfo.TypeOf(a)
+					if t == nil {
+						continue
+					}
+					if b, isBasic := t.Underlying().(*types.Basic); !isBasic || b.Info()&types.IsInteger == 0 {
+						continue
+					}
+					if tv, isConst := pk.TypesInfo.Types[a]; isConst && tv.Value != nil {
+						continue // the base argument of the strconv formatters
+					}
+					s := strings.ReplaceAll(types.ExprString(stripConv(pk.TypesInfo, a)), " ", "")
+					if s == "len("+param+")" {
+						if !sawOtherNumber {
+							lenOK = true
+						}
+					} else {
+						sawOtherNumber = true
+						lenOK = false
+					}
+				}
 			}
 			if strings.HasSuffix(fn, ".Write") && len(call.Args) == 1 {
 				a := types.ExprString(call.Args[0])
@@ -242,71 +266,5 @@ func runC26(c *Ctx) {
 	}
 
 	// (3) dispatch
-	if fd := p.MustFunc(rD, pk, "Codec.DecodeMessage"); fd != nil {
-		want := map[string][2]string{"request": {"decodeRequest", "m.Command"}, "response": {"decodeResponse", "m.Command"}, "event": {"decodeEvent", "m.Event"}}
-		n := 0
-		for _, sw := range FindSwitches(fd, func(e ast.Expr) bool { return strings.HasSuffix(types.ExprString(e), ".Type") }) {
-			for _, arm := range SwitchArms(info, sw) {
-				for _, k := range arm.Consts {
-					if k.Val == nil || k.Val.Kind() != constant.String {
-						continue
-					}
-					key := constant.StringVal(k.Val)
-					w, ok := want[key]
-					if !ok {
-						continue
-					}
-					n++
-					got, arg := "", ""
-					for _, call := range callsIn(info, arm.Body) {
-						if f := CalleeOf(info, call); f != nil && strings.HasPrefix(f.Name(), "decode") {
-							got = f.Name()
-							if len(call.Args) > 0 {
-								arg = types.ExprString(call.Args[0])
-							}
-						}
-					}
-					c.Check(got == w[0] && arg == w[1], rD, "DecodeMessage: type "+key, p.Pos(arm.Clause.Pos()), got+"("+arg+", ...)", fmt.Sprintf("messages of type %q are decoded by %s(%s, ...); they must go to %s(%s, ...)", key, got, arg, w[0], w[1]))
-				}
-			}
-		}
-		c.Min(rD, "DecodeMessage arms", n, 3)
-	}
-	for fn, reg := range map[string]string{"decodeRequest": "requestCtor", "decodeResponse": "responseCtor", "decodeEvent": "eventCtor"} {
-		fd := p.MustFunc(rD, pk, "Codec."+fn)
-		if fd == nil {
-			continue
-		}
-		used := ""
-		ast.Inspect(fd.Body, func(n ast.Node) bool {
-			if ix, ok := n.(*ast.IndexExpr); ok {
-				s := types.ExprString(ix.X)
-				if strings.HasSuffix(s, "Ctor") {
-					used = s[strings.LastIndex(s, ".")+1:]
-				}
-			}
-			return true
-		})
-		good := used == reg
-		detail := "looks the constructor up in " + used
-		if fn == "decodeResponse" {
-			// failed responses decode to ErrorResponse
-			errArm := false
-			ast.Inspect(fd.Body, func(n ast.Node) bool {
-				if ifs, ok := n.(*ast.IfStmt); ok && strings.ReplaceAll(types.ExprString(ifs.Cond), " ", "") == "!success" {
-					for _, s := range ifs.Body.List {
-						if ds, ok := s.(*ast.DeclStmt); ok && strings.Contains(nodeString(p, ds), "ErrorResponse") {
-							errArm = true
-						}
-					}
-				}
-				return true
-			})
-			if !errArm {
-				good = false
-				detail += "; a response with success == false is not decoded as ErrorResponse"
-			}
-		}
-		c.Check(good, rD, fn, p.Pos(fd.Pos()), detail, fmt.Sprintf("%s: %s (want %s)", fn, detail, reg))
-	}
+	c26Dispatch(c, p, pk, rD)
 }
